@@ -20,7 +20,10 @@ import (
 // harness from the queried address with a crafted reply echoing the transaction id.
 
 var mutClasses = []string{"genuine", "genuine", "genuine", "stale", "forged", "seqbump", "wrongkey", "othersalt",
-	"nokey", "nosig", "nov", "notoken", "noseqwrongkey", "imm", "empty", "error", "equalseq"}
+	"nokey", "nosig", "nov", "notoken", "noseqwrongkey", "imm", "empty", "error", "equalseq",
+	// the shared genuine item of the case (key, seq, value, signature), and replies that REUSE its signature
+	// bytes with another value or a higher seq (a verifier that remembers signatures it has seen must not be fooled)
+	"shared", "shared", "replayval", "replayseq"}
 var immClasses = []string{"imm", "imm", "immforged", "genuine", "wrongkey", "nov", "notoken", "empty", "error"}
 
 type clientCase struct {
@@ -162,6 +165,10 @@ func runClientCase(w *world, tr *sim.Trace, seg int, c clientCase) error {
 	base := []int64{0, 3, 1 << 40}[rng.Intn(3)]
 	topSeq := base + 2 + int64(rng.Intn(3))
 
+	// one genuine item every "shared"/"replay*" reply of this case refers to (ed25519 signing is deterministic)
+	_, sharedEnc, sharedVn := mk()
+	sharedSeq := topSeq - int64(rng.Intn(2))
+
 	type reply struct {
 		d   *sim.Dict
 		abs sim.M
@@ -183,6 +190,19 @@ func runClientCase(w *world, tr *sim.Trace, seg int, c clientCase) error {
 		switch cl {
 		case "genuine":
 			signed(key, saltN, topSeq-int64(rng.Intn(3)))
+		case "shared":
+			enc, k, seq = sharedEnc, key.pub, sharedSeq
+			sig = w.sign(key, saltN, sharedSeq, sharedVn)
+			hasv, hask, hasseq, hassig = true, true, true, true
+		case "replayval": // the shared item's signature over another value
+			_, enc, _ = mk()
+			k, seq = key.pub, sharedSeq
+			sig = w.sign(key, saltN, sharedSeq, sharedVn)
+			hasv, hask, hasseq, hassig = true, true, true, true
+		case "replayseq": // the shared item's signature and value under a higher sequence number
+			enc, k, seq = sharedEnc, key.pub, topSeq+9
+			sig = w.sign(key, saltN, sharedSeq, sharedVn)
+			hasv, hask, hasseq, hassig = true, true, true, true
 		case "equalseq":
 			signed(key, saltN, topSeq)
 		case "stale":
